@@ -382,6 +382,168 @@ def _split_ifexp_loops(block):
     return changed
 
 
+def _split_ifexp_stmts(block):
+    """`x = A if c else B` / `return A if c else B` with a call-free test is
+    the if/else statement (one evaluation of c, then one arm, either way)"""
+    changed = False
+    for j, st in enumerate(block):
+        v = None
+        if isinstance(st, ast.Assign) and len(st.targets) == 1 and \
+                isinstance(st.targets[0], ast.Name):
+            v = st.value
+        elif isinstance(st, ast.Return):
+            v = st.value
+        if not isinstance(v, ast.IfExp) or not _call_free(v.test):
+            continue
+        if isinstance(st, ast.Assign) and _mentions(v.test, st.targets[0].id) and False:
+            continue
+        arms = []
+        for br in (v.body, v.orelse):
+            new = clone(st)
+            new.value = br
+            arms.append(new)
+        block[j] = ast.copy_location(ast.If(test=v.test, body=[arms[0]],
+                                            orelse=[arms[1]]), st)
+        changed = True
+    return changed
+
+
+def _is_const(e, v):
+    return isinstance(e, ast.Constant) and e.value is v
+
+
+def _genexp(elt, target, it):
+    return ast.GeneratorExp(elt=elt, generators=[ast.comprehension(
+        target=target, iter=it, ifs=[], is_async=0)])
+
+
+def _call(name, arg):
+    return ast.Call(func=ast.Name(id=name, ctx=ast.Load()), args=[arg], keywords=[])
+
+
+def _any_all(block, later_reads=None):
+    """search loops as any():
+       for x in IT: if C: return True      ==  return any(C for x in IT)
+       return False
+       for x in IT: if C: A; break         ==  if any(C for x in IT): A
+       else: B                                 else: B        (x not used in A/later)
+    (any() stops at the first true C exactly like the return/break)."""
+    changed = False
+    j = 0
+    while j < len(block):
+        st = block[j]
+        if isinstance(st, ast.For) and len(st.body) == 1 and isinstance(st.body[0], ast.If) \
+                and not st.body[0].orelse:
+            inner = st.body[0]
+            tnames = _root_names(st.target)
+            # return form
+            if not st.orelse and len(inner.body) == 1 and isinstance(inner.body[0], ast.Return) \
+                    and j + 1 < len(block) and isinstance(block[j + 1], ast.Return):
+                a, b = inner.body[0].value, block[j + 1].value
+                for hit, miss, neg in ((True, False, False), (False, True, True)):
+                    if a is not None and b is not None and _is_const(a, hit) and _is_const(b, miss):
+                        v = _call('any', _genexp(inner.test, st.target, st.iter))
+                        if neg:
+                            v = ast.UnaryOp(op=ast.Not(), operand=v)
+                        new = ast.copy_location(ast.Return(value=v), st)
+                        ast.fix_missing_locations(new)
+                        block[j:j + 2] = [new]
+                        changed = True
+                        break
+                if changed and block[j] is not st:
+                    j += 1
+                    continue
+            # break/else form
+            if inner.body and isinstance(inner.body[-1], ast.Break):
+                A = inner.body[:-1]
+                used = set()
+                for a_ in A:
+                    used |= _root_names(a_)
+                for b_ in st.orelse:
+                    used |= _root_names(b_)
+                has_jump = any(isinstance(n, (ast.Break, ast.Continue))
+                               for a_ in A for n in ast.walk(a_))
+                later = later_reads(j) if later_reads is not None else tnames
+                if not (tnames & used) and not (tnames & later) and not has_jump:
+                    new = ast.copy_location(ast.If(
+                        test=_call('any', _genexp(inner.test, st.target, st.iter)),
+                        body=A or [ast.Pass()], orelse=st.orelse), st)
+                    ast.fix_missing_locations(new)
+                    block[j] = new
+                    changed = True
+        j += 1
+    return changed
+
+
+def prenormalize_helper(helper):
+    """a clone of the helper with search loops folded (so that a helper that
+    is `return any(...)` in disguise can be inlined as an expression)"""
+    new = clone(helper)
+    if _any_all(new.body):
+        ast.fix_missing_locations(new)
+        return new
+    return helper
+
+
+def _root_names(e):
+    return {n.id for n in ast.walk(e) if isinstance(n, ast.Name)}
+
+
+def _split_star_loops(block):
+    """`for t in (*A, *B, *C): body` (no break, body does not mention the
+    roots of A, B, C) is `for s in (A, B, C): for t in s: body`; and
+    `for t in map(F, X): body` (F call-free) is `for m in X: t = F(m); body`
+    (map is lazy: F is applied right before each trip either way)."""
+    changed = False
+    for j, st in enumerate(block):
+        if not isinstance(st, ast.For) or st.orelse:
+            continue
+        it = st.iter
+        if isinstance(it, (ast.Tuple, ast.List)) and len(it.elts) >= 2 and \
+                all(isinstance(e, ast.Starred) for e in it.elts):
+            if any(isinstance(n, ast.Break) for b in st.body for n in ast.walk(b)):
+                continue
+            roots = set()
+            for e in it.elts:
+                roots |= _root_names(e.value)
+            body_names = set()
+            for b in st.body:
+                body_names |= _root_names(b)
+            body_names |= _root_names(st.target)
+            if roots & body_names:
+                continue
+            if not all(_call_free(e.value) or isinstance(e.value, (ast.ListComp,))
+                       for e in it.elts):
+                continue
+            seq = '__seq_%d' % getattr(st, 'lineno', j)
+            inner = ast.copy_location(ast.For(
+                target=st.target, iter=ast.Name(id=seq, ctx=ast.Load()),
+                body=st.body, orelse=[], type_comment=None), st)
+            outer = ast.copy_location(ast.For(
+                target=ast.Name(id=seq, ctx=ast.Store()),
+                iter=ast.copy_location(ast.Tuple(
+                    elts=[e.value for e in it.elts], ctx=ast.Load()), it),
+                body=[inner], orelse=[], type_comment=None), st)
+            block[j] = outer
+            changed = True
+            continue
+        if isinstance(it, ast.Call) and isinstance(it.func, ast.Name) and \
+                it.func.id == 'map' and len(it.args) == 2 and not it.keywords and \
+                isinstance(it.args[0], (ast.Name, ast.Attribute)) and \
+                _call_free(it.args[0]) and not isinstance(it.args[1], ast.Starred):
+            m = '__m_%d' % getattr(st, 'lineno', j)
+            bind = ast.copy_location(ast.Assign(
+                targets=[st.target],
+                value=ast.copy_location(ast.Call(
+                    func=it.args[0], args=[ast.Name(id=m, ctx=ast.Load())],
+                    keywords=[]), it), type_comment=None), st)
+            block[j] = ast.copy_location(ast.For(
+                target=ast.Name(id=m, ctx=ast.Store()), iter=it.args[1],
+                body=[bind] + st.body, orelse=[], type_comment=None), st)
+            changed = True
+    return changed
+
+
 def _free_loads(node, bound=frozenset()):
     """names read in `node` that are not (re)bound inside it before the read:
     comprehension variables and the targets of for loops / earlier plain
@@ -446,6 +608,95 @@ def _reads_after(func, block, idx):
     return out
 
 
+COMPS = (ast.ListComp, ast.SetComp, ast.DictComp, ast.GeneratorExp)
+
+
+class _Alpha(ast.NodeTransformer):
+    """comprehension-bound names renamed by nesting depth (c0, c0_1, c1, ...):
+    `any(i.extends(x) for x in r)` and `any(i.extends(b) for b in r)` are the
+    same expression"""
+
+    def __init__(self):
+        self.env = [{}]
+        self.depth = 0
+        self.changed = False
+
+    def visit_Name(self, node):
+        for scope in reversed(self.env):
+            if node.id in scope:
+                if scope[node.id] != node.id:
+                    self.changed = True
+                return ast.copy_location(ast.Name(id=scope[node.id], ctx=node.ctx), node)
+        return node
+
+    def visit_Lambda(self, node):
+        shadow = {a.arg: a.arg for a in node.args.args + node.args.kwonlyargs}
+        self.env.append(shadow)
+        try:
+            return self.generic_visit(node)
+        finally:
+            self.env.pop()
+
+    def _comp(self, node):
+        scope = {}
+        k = 0
+        for g in node.generators:
+            for n in ast.walk(g.target):
+                if isinstance(n, ast.Name) and n.id not in scope:
+                    scope[n.id] = 'c%d' % self.depth if k == 0 else 'c%d_%d' % (self.depth, k)
+                    k += 1
+        # the first iterable is evaluated in the enclosing scope
+        first = self.visit(node.generators[0].iter)
+        self.env.append(scope)
+        self.depth += 1
+        try:
+            for i, g in enumerate(node.generators):
+                g.target = self.visit(g.target)
+                if i:
+                    g.iter = self.visit(g.iter)
+                g.ifs = [self.visit(c) for c in g.ifs]
+            node.generators[0].iter = first
+            if isinstance(node, ast.DictComp):
+                node.key = self.visit(node.key)
+                node.value = self.visit(node.value)
+            else:
+                node.elt = self.visit(node.elt)
+        finally:
+            self.depth -= 1
+            self.env.pop()
+        return node
+
+    visit_ListComp = visit_SetComp = visit_DictComp = visit_GeneratorExp = _comp
+
+
+def alpha(node):
+    """alpha-normalise comprehension variables in place; True if changed"""
+    a = _Alpha()
+    a.visit(node)
+    return a.changed
+
+
+class _Spell(ast.NodeTransformer):
+    """[*X] is list(X); (*X,) is tuple(X)"""
+    changed = False
+
+    def _one_star(self, node, name):
+        self.generic_visit(node)
+        if isinstance(node.ctx, ast.Load) and len(node.elts) == 1 and \
+                isinstance(node.elts[0], ast.Starred):
+            self.changed = True
+            return ast.copy_location(ast.Call(
+                func=ast.copy_location(ast.Name(id=name, ctx=ast.Load()), node),
+                args=[node.elts[0].value], keywords=[]), node)
+        return node
+
+    def visit_List(self, node):
+        return self._one_star(node, 'list')
+
+    def visit_Tuple(self, node):
+        return self._one_star(node, 'tuple')
+
+
 def _comp_nnf(func):
     changed = False
     for n in ast.walk(func):
@@ -480,6 +731,12 @@ def normalize(func):
                         round_changed = True
                     if _split_ifexp_loops(blk):
                         round_changed = True
+                    if _split_star_loops(blk):
+                        round_changed = True
+                    if _split_ifexp_stmts(blk):
+                        round_changed = True
+                    if _any_all(blk, lambda i, blk=blk: _reads_after(new, blk, i)):
+                        round_changed = True
                     if _fold_block(blk, lambda i, blk=blk: _reads_after(new, blk, i)):
                         round_changed = True
             if isinstance(owner, ast.Try):
@@ -495,6 +752,14 @@ def normalize(func):
         else:
             break
     if _comp_nnf(new):
+        changed = True
+    for st in new.body:
+        if alpha(st):
+            changed = True
+    sp = _Spell()
+    for k, st in enumerate(new.body):
+        new.body[k] = sp.visit(st)
+    if sp.changed:
         changed = True
     if not changed:
         return func
